@@ -114,10 +114,22 @@ pub fn c17(rng: &mut Rng, n: u64, work: &Path, out: &mut Out) {
     // L around buffer sizes, sampled bounds
     for i in 0..n {
         out.cases += 1;
-        let l = *rng.pick(&[8191usize, 8192, 8193, 65_535, 65_536, 65_537, 100, 1000, 4096]);
+        let l = *rng.pick(&[8191usize, 8192, 8193, 65_535, 65_536, 65_537, 100_000, 200_000, 100, 1000, 4096]);
         let l = if i % 3 == 0 { l } else { rng.range(7, 300) as usize };
         let content = rng.bytes(l);
         let key = put(&content, rng.range(1, 4) as usize);
+        // whole-blob and near-whole ranges (long single reads)
+        if l > 9000 {
+            for (s0, e0) in [(0u64, l as u64), (0, u64::MAX), (1, 1 << 63), (0, l as u64 - 1)] {
+                let r = cas.get_range(&key, s0, e0);
+                let lo = s0.min(l as u64) as usize;
+                let hi = e0.min(l as u64) as usize;
+                match r {
+                    Ok(Some(b)) if b[..] == content[lo..hi] => out.count("range.big.whole"),
+                    other => out.oracle_fail(format!("C17: L={l} [{s0},{e0}) → {:?} bytes", other.map(|o| o.map(|b| b.len())))),
+                }
+            }
+        }
         for _ in 0..6 {
             let b = |rng: &mut Rng| match rng.below(6) {
                 0 => *rng.pick(&specials),
